@@ -37,14 +37,14 @@ SeqSet(q) == {q[i] : i \in DOMAIN q}
 TInit == /\ TLCSet(1, 0)
          /\ l = 1
          /\ router = "gossipsub"
-         /\ ps = [p \in Peers |-> InitPeer("v11", FALSE)]
+         /\ ps = [p \in Peers |-> InitPeer("v11", FALSE, FALSE, FALSE)]
          /\ psAF = ps
          /\ pubd = FALSE /\ elapsed = FALSE /\ hist = <<>>
 
 TReset ==
     /\ E.a = "reset"
     /\ router' = E.router
-    /\ ps' = [p \in Peers |-> InitPeer(E.peers[p].proto, E.peers[p].pos)]
+    /\ ps' = [p \in Peers |-> InitPeer(E.peers[p].proto, E.peers[p].pos, E.peers[p].refuse, E.peers[p].neg)]
     /\ psAF' = ps'
     /\ pubd' = FALSE /\ elapsed' = FALSE /\ hist' = <<>>
 
